@@ -1,21 +1,54 @@
 import LentilVerif.Model.Fourier
 import LentilVerif.Gen.FourierWiring
-/-! The `out=` path of `lentil.fourier.dft2`: a caller-supplied buffer is refused when its dtype cannot hold complex values
-(guard regenerated: `Gen.fwOutRefused`), otherwise the transform is computed from the input and written into the buffer, which is
-the returned object (`Gen.fwOutResultIsBuffer`). **Caveat (not modelled):** the input is read as a snapshot — when the caller passes
-the input array itself as the buffer (`out=f`) the real code relies on `E1.dot(f)` being a fresh temporary evaluated before
-`np.dot(·, E2, out=out)` writes; that evaluation order lives inside NumPy and is only observed by the correspondence
-(in-place cases of tools/harness/c01.py). Mathlib-free. -/
+/-! The `out=` path of `lentil.fourier.dft2`. Two checks stand between a caller-supplied buffer and the result:
+
+1. `dft2`'s own guard (regenerated: `Gen.fwOutRefused`): a buffer whose dtype cannot hold complex values
+   (`not np.can_cast(complex, out.dtype)`) raises `TypeError`;
+2. `np.dot(…, out=out)`'s acceptance condition — a **NumPy contract written down by hand** (`dotAccepts`, TRUSTED, observed by the
+   correspondence op `c01.out` on every generated buffer): the buffer must have exactly the result's dtype (complex128), two
+   dimensions of the result's shape `(M, N)`, be C-contiguous (computed from its strides as NumPy does: an axis of length 1 may carry
+   any stride) and writeable; otherwise `ValueError`.
+
+A buffer passing both is overwritten with the transform of the input and is the returned object (`Gen.fwOutResultIsBuffer`).
+**Not modelled:** alignment (buffers are assumed aligned); aliasing — the input is read as a snapshot, so the in-place call
+`out=f` is outside this model (the real code relies on `E1.dot(f)` being evaluated before `np.dot(·, E2, out=out)` writes; that order
+lives inside NumPy and is only observed by the in-place cases of tools/harness/c01.py); `idft2(out=)` (differential only).
+Mathlib-free. -/
 namespace Lentil
 
-/-- a caller-supplied output buffer: can its dtype hold complex numbers (`np.can_cast(complex, out.dtype)`), and what it holds -/
+/-- the dtypes of the buffers the harness generates -/
+inductive BufDtype where
+  | complex128 | complex64 | clongdouble | float64 | int64 | object
+  deriving DecidableEq, Repr
+
+/-- `np.can_cast(complex, dtype)` (NumPy's default "safe" casting table, restricted to `BufDtype`; TRUSTED, observed) -/
+def BufDtype.canCastComplex : BufDtype → Bool
+  | .complex128 => true | .clongdouble => true | .object => true
+  | .complex64 => false | .float64 => false | .int64 => false
+
+/-- a caller-supplied output buffer: dtype, shape (any number of dimensions), strides in elements, writeable flag, contents -/
 structure OutBuf (K : Type) where
-  canCastComplex : Bool
+  dtype : BufDtype
+  shape : List Int
+  strides : List Int
+  writeable : Bool
   arr : Arr K
+
+/-- NumPy's C-contiguity flag of a two-dimensional array with non-empty axes: walking from the last axis, every axis of length ≠ 1
+must have stride = product of the later lengths -/
+def cContiguous2 (a b s t : Int) : Bool := (b == 1 || t == 1) && (a == 1 || s == b)
+
+/-- `np.dot(A, B, out=buf)` accepts `buf` for an `(M, N)` complex128 product (NumPy contract, by hand) -/
+def dotAccepts {K : Type} (b : OutBuf K) (M N : Int) : Bool :=
+  b.dtype == .complex128 && b.writeable &&
+  match b.shape, b.strides with
+  | [a, c], [s, t] => a == M && c == N && cContiguous2 a c s t
+  | _, _ => false
 
 /-- outcome of a call with `out=` -/
 inductive OutCall (K : Type) where
   | typeError
+  | valueError
   | ok (result : Arr K) (bufferAfter : Option (Arr K)) (resultIsBuffer : Bool)
 
 variable {K R : Type} [Add R] [Sub R] [Mul R] [Neg R] [RealLike R] [Add K] [Mul K] [Zero K] [CxLike K R]
@@ -25,9 +58,14 @@ def dft2Out (f : Arr K) (αr αc : R) (M N : Int) (shr shc : R) (offr offc : Int
   match out with
   | none => .ok (dft2 f αr αc M N shr shc offr offc unitary) none false
   | some b =>
-    if Gen.fwOutRefused b.canCastComplex then .typeError
+    if Gen.fwOutRefused b.dtype.canCastComplex then .typeError          -- dft2's own guard comes first
+    else if !dotAccepts b M N then .valueError                          -- then np.dot's
     else
-      let F := dft2 f αr αc M N shr shc offr offc unitary      -- whatever `b.arr` held is overwritten
+      let F := dft2 f αr αc M N shr shc offr offc unitary              -- whatever `b.arr` held is overwritten
       .ok F (some F) Gen.fwOutResultIsBuffer
+
+/-- the outcome as a tag (what the correspondence compares with the exception class the real call raises) -/
+def OutCall.tag {K : Type} : OutCall K → String
+  | .typeError => "TypeError" | .valueError => "ValueError" | .ok _ _ _ => "ok"
 
 end Lentil
